@@ -7,7 +7,7 @@ mention that function on an in-memory overlay.  Prints kill rate per
 property and the survivors (candidates for new rules or equivalent mutants).
 
   /venv/bin/python tools/sweep.py [--props C03,C07] [--limit N] [--out FILE]
-                              [--match substr,substr]
+                              [--match substr,substr] [--union]
 """
 import ast
 import collections
@@ -165,6 +165,68 @@ def work(job):
     return prop, desc, 'killed' if new else 'survived', new[:2]
 
 
+def work_union(job):
+    props, path, src, desc, bases = job
+    try:
+        ast.parse(src)
+    except SyntaxError:
+        return desc, 'unparsable', []
+    hits = []
+    for prop in props:
+        try:
+            got = selftest._violations(prop, REPO, {path: src})
+        except Exception as e:
+            hits.append('%s.CRASH %r' % (prop, e))
+            continue
+        for rule, cons in sorted(got - bases[prop])[:1]:
+            hits.append('%s.%s' % (prop, rule))
+    return desc, 'killed' if hits else 'survived', hits
+
+
+def main_union(props, only, out):
+    """Every mutant of a function anchored by ANY property is evaluated
+    against every property that anchors a function of the same module."""
+    t0 = time.time()
+    with multiprocessing.Pool(16) as pool:
+        anc = pool.map(anchors_names, props)
+        bases = dict(zip(props, pool.starmap(
+            selftest._violations, [(p, REPO, None) for p in props])))
+    from mstatic.core import Program
+    prog = Program(REPO)
+    by_mod = collections.defaultdict(set)
+    allq = set()
+    for p, qs in zip(props, anc):
+        for q in qs:
+            if q in prog.funcs:
+                by_mod[prog.funcs[q].module].add(p)
+                allq.add(q)
+    jobs = []
+    for q in sorted(allq):
+        if only and not any(o in q for o in only):
+            continue
+        ps = sorted(by_mod[prog.funcs[q].module])
+        for (path, src, desc) in mutants_of(prog, q):
+            jobs.append((ps, path, src, desc, bases))
+    print('union sweep: %d mutants of %d functions' % (len(jobs), len(allq)),
+          flush=True)
+    with multiprocessing.Pool(16) as pool:
+        res = pool.map(work_union, jobs, chunksize=2)
+    killed = [r for r in res if r[1] == 'killed']
+    surv = [r for r in res if r[1] != 'killed']
+    print('TOTAL: %d mutants, %d killed (%.0f%%), %.0fs' % (
+        len(res), len(killed), 100.0 * len(killed) / max(len(res), 1),
+        time.time() - t0))
+    if out:
+        with open(out, 'w') as fh:
+            json.dump({'survived': [(d, v) for d, v, h in surv],
+                       'killed': [(d, h) for d, v, h in killed]}, fh,
+                      indent=1)
+        print('written to', out)
+    else:
+        for d, v, h in surv:
+            print(' ', v, d)
+
+
 def main():
     args = sys.argv[1:]
     props = PROPS
@@ -179,6 +241,8 @@ def main():
     only = None
     if '--match' in args:
         only = args[args.index('--match') + 1].split(',')
+    if '--union' in args:
+        return main_union(props, only, out)
     t0 = time.time()
     jobs = []
     with multiprocessing.Pool(16) as pool:
